@@ -41,6 +41,8 @@ def run(pid, path, hv):
             return 1
         print("the recorded signature does not reproduce on the current tree" + (" (other findings above)" if hits else ""))
         return 0
+    if isinstance(wit, dict) and "sent_to_one_document_in_order" in wit:
+        return replay_ls_history(pid, path, wit, sig)
     tier = rec.get("tier", "quick")
     seed = rec.get("seed", 1)
     env = dict(os.environ, VERIF_SEED=str(seed))
@@ -51,6 +53,68 @@ def run(pid, path, hv):
         print("  " + again[0].strip()[:300])
         return 1
     print("the recorded signature does not reproduce on the current tree (same tier and seed)")
+    return 0
+
+
+def replay_ls_history(pid, path, wit, sig):
+    """A didChange history on one document (witness of the server steps of C05): the history is sent again to one
+    server; after every step the same text is opened in a fresh server under the settings then in force, and the two
+    publishes must be equal."""
+    here = os.path.dirname(os.path.abspath(__file__))
+    sys.path.insert(0, os.path.join(here, "lsp"))
+    import shutil
+    import client
+    from client import Server, uri_for
+    base = os.path.join(here, "target", "run", "replay_ls")
+    shutil.rmtree(base, ignore_errors=True)
+    ext = {"markdown": "md", "plaintext": "txt"}.get(wit.get("language_id"), "txt")
+    settings = dict(wit.get("settings") or {})
+    a = Server(os.path.join(base, "a"), settings=settings)
+    bad = 0
+    try:
+        a.initialize()
+        doc = os.path.join(a.workdir, "doc." + ext)
+        uri = uri_for(doc)
+        text = None
+        for i, st in enumerate(wit["sent_to_one_document_in_order"]):
+            if isinstance(st, dict) and "didChangeConfiguration" in st:
+                if text is None:
+                    continue
+                with open(doc, "w", encoding="utf-8", newline="") as fh:
+                    fh.write(text)
+                settings = dict(st["didChangeConfiguration"])
+                keep = {k: v for k, v in a.settings["harper-ls"].items() if k in ("userDictPath", "fileDictPath", "statsPath")}
+                keep.update(settings)
+                a.settings = {"harper-ls": keep}
+                n = a.n_publishes(uri)
+                a.notify("workspace/didChangeConfiguration", {"settings": a.settings})
+                a.pump(lambda: a.n_publishes(uri) > n, 60)
+            elif text is None:
+                text = st
+                a.open(uri, text, wit.get("language_id", "plaintext"))
+            else:
+                text = st
+                a.change(uri, text, version=i + 1)
+            got = client.diag_keys(a.last_diagnostics(uri))
+            b = Server(os.path.join(base, "b%d" % i), settings=settings)
+            try:
+                b.initialize()
+                ub = uri_for(os.path.join(b.workdir, "doc." + ext))
+                b.open(ub, text, wit.get("language_id", "plaintext"))
+                exp = client.diag_keys(b.last_diagnostics(ub))
+            finally:
+                b.shutdown()
+            if got != exp:
+                bad += 1
+                print("  step %d: the long-lived document has %d diagnostics, a fresh server gives %d for the same text and settings; only long-lived %r; only fresh %r" % (
+                    i, len(got), len(exp), [d for d in got if d not in exp][:2], [d for d in exp if d not in got][:2]))
+    finally:
+        a.shutdown()
+        shutil.rmtree(base, ignore_errors=True)
+    if bad:
+        print(f"VIOLATION property={pid} replay={path}")
+        return 1
+    print("the recorded history does not reproduce on the current tree: every publish equals a fresh server's")
     return 0
 
 
